@@ -18,6 +18,16 @@ Space I, bounded-exhaustive, four parts (fmt of a failure names the part):
                  thorough also mbox). from_json runs every constructor a second time: a normalisation that is not idempotent
                  on some decorated text shows as json-equal / content-equal. What the extractor's decoder made of the text is
                  counted in the outcome ("decor:kept|stripped|bom-dropped|other"), the verdict never depends on it.
+                 plus the header spellings (c05_corpus.header_cases): a raw one-part message (bytes written directly, no writer
+                 in between) as .eml and as .mbox in which ONE header the readers look at - Subject, From, To, Cc, Bcc, Reply-To,
+                 Message-ID, In-Reply-To, Date, Content-Type, Content-Disposition, and Content-Type / Content-Disposition of an
+                 attachment part - carries a token at ONE syntactic position of its value (37 header positions: display name,
+                 quoted name, local part, bare address, domain; msg-id inside <> / raw; date comment / raw; charset, name,
+                 filename parameter) in ONE of 13 wire spellings {ascii, raw latin-1 byte, raw utf-8 bytes, raw invalid byte,
+                 encoded-word B / Q / unknown charset / invalid base64 / surrogate bytes, folded, empty, NUL, the marker string
+                 "_type"}, or is absent / written twice: 507 messages per kind (what the third-party parsers hand over for such a
+                 value - str, email.header.Header, undecoded text - is exactly what must survive to_json). thorough: the same with
+                 CRLF line ends, plus all pairs of positions of two different headers in the spellings {latin-1, folded}.
                  histories: "json-first" = to_json() on the fresh result; "read-first" = every image / attachment stream
                  is read to its end (get_bytes().read(), attachment.data.read()) BEFORE to_json().
   instance       type-directed instances: the registry is discovered reflectively; for every instantiable registered
@@ -27,8 +37,9 @@ Space I, bounded-exhaustive, four parts (fmt of a failure names the part):
                  1 symbol = 160 per field; thorough: every position <= 2 = 288 per field, and pre/suf/mid <= 3 = 1824 per field
                  for the classes whose construction runs code of their own (__post_init__ & co., discovered reflectively));
                  two-field deviations use the core domains plus both:sp / both:bom.
-  cli            sharepoint2text.cli.main on the small generated document of every format, containers of them and 20
-                 fixtures: {--json, --json-unit} x {without, with --binary} x {flag before, after the path}.
+  cli            sharepoint2text.cli.main on the small generated document of every format, containers of them, 20 fixtures
+                 and the header-spelling messages {Subject, Message-ID, From display name} x {raw latin-1, encoded-word B} x
+                 {eml, mbox}: {--json, --json-unit} x {without, with --binary} x {flag before, after the path}.
 
 Oracle clauses (only what the statement says)
   dumps             to_json() raises or json.dumps(to_json()) raises (standard encoder, default settings)
@@ -83,6 +94,7 @@ CLI_FIXTURES = ["plain_text/plain.txt", "plain_text/plain.csv", "plain_text/docu
                 "open_office/sample_spreadsheet.ods", "pdf/multi_image.pdf", "legacy_ms/2025.144.un.rtf"]
 CLI_GEN_FORMATS = ["docx", "pptx", "xlsx", "odt", "odp", "ods", "odg", "odf", "rtf", "pdf", "xls", "ppt", "txt", "csv", "md", "json",
                    "html", "mhtml", "epub"]
+CLI_HDR_DEVS = [[h, p, sp] for h, p in (("Subject", "value"), ("Message-ID", "id"), ("From", "name")) for sp in ("latin1", "ew-b")]
 HISTS = ["json-first", "read-first"]
 
 
@@ -755,6 +767,22 @@ def shrinks(case):
         if g.get("enc", "utf-8") != "utf-8":
             yield dict(case, gen=dict(g, enc="utf-8"))
         return
+    if "gen" in case and case["gen"].get("fmt") == "hdr":
+        g = case["gen"]
+        devs = g.get("devs") or []
+        for i in range(len(devs)):
+            yield dict(case, gen=dict(g, devs=devs[:i] + devs[i + 1:]))
+        if g.get("le", "lf") != "lf":
+            yield dict(case, gen=dict(g, le="lf"))
+        for i, (h, pos, sp) in enumerate(devs):      # an earlier spelling / position of the same header (one mechanism, one minimal case)
+            if pos is None:
+                continue
+            for sp2 in G.HDR_SPELL[1:G.HDR_SPELL.index(sp)] if sp in G.HDR_SPELL else []:
+                yield dict(case, gen=dict(g, devs=devs[:i] + [[h, pos, sp2]] + devs[i + 1:]))
+            names = [n for n, _ in G.HDR_POS.get(h, [])]
+            for p2 in names[:names.index(pos)] if pos in names else []:
+                yield dict(case, gen=dict(g, devs=devs[:i] + [[h, p2, sp]] + devs[i + 1:]))
+        return
     if "gen" in case:
         g = case["gen"]
         if g.get("images") and not _uses_images(g):
@@ -802,7 +830,7 @@ def embeds(small, big):
 
 
 def _core(g):
-    return {k: v for k, v in g.items() if k in ("doc", "spec", "specs", "members", "kind", "pre", "mid", "suf", "enc")}
+    return {k: v for k, v in g.items() if k in ("doc", "spec", "specs", "members", "kind", "pre", "mid", "suf", "enc", "devs", "le")}
 
 
 def fingerprint_view(case):
@@ -836,6 +864,8 @@ def corpus_cases(tier, seed):
         out.append(("gen:" + fmt, {"gen": g, "hist": "json-first"}))
     for fmt, g in G.edge_cases(tier, seed):
         out.append(("gen:" + fmt, {"gen": g, "hist": "json-first"}))
+    for fmt, g in G.header_cases(tier, seed):
+        out.append(("gen:" + fmt, {"gen": g, "hist": "json-first"}))
     return out
 
 
@@ -843,6 +873,7 @@ def cli_cases(tier, seed):
     srcs = [{"fixture": f} for f in CLI_FIXTURES]
     srcs += [{"gen": G.small_case(f, seed)} for f in CLI_GEN_FORMATS]
     srcs += [{"gen": g} for _, g in G.mail_cases(seed)] + [{"gen": g} for _, g in G.archive_cases(seed)]
+    srcs += [{"gen": g} for _, g in G.header_cases("quick", seed) if len(g["devs"]) == 1 and g["devs"][0] in CLI_HDR_DEVS]
     if tier != "quick":
         srcs += [{"gen": g} for f, g in G.rich_cases(seed) if f in G.ADM_FORMATS]
     out = []
@@ -938,7 +969,7 @@ def run(ctx):
     cli = cli_cases(ctx.tier, seed)
     tasks = list(itasks)
     heavy = [c for c in corpus if c[0] == "fixture"] + [c for c in corpus if c[0] != "fixture" and c[1]["hist"] == "read-first"] + \
-            [c for c in corpus if c[0] != "fixture" and c[1]["hist"] != "read-first" and c[1]["gen"]["fmt"] not in ("xlsx", "xls", "ods", "edge")]
+            [c for c in corpus if c[0] != "fixture" and c[1]["hist"] != "read-first" and c[1]["gen"]["fmt"] not in ("xlsx", "xls", "ods", "edge", "hdr")]
     heavy_ids = {id(c) for c in heavy}
     light = [c for c in corpus if id(c) not in heavy_ids]
     for c in heavy:
@@ -989,7 +1020,8 @@ def run(ctx):
            "rule": "(a) every accepted fixture and one rich generated document per format x {json-first, read-first}, plus the full "
                    "header-vocabulary x body-vocabulary product of 2-column xlsx/xls/ods sheets, plus every decorated text (all sequences "
                    "over the 8-symbol alphabet DECOR up to the stated length, before / after / inside / around the text) as plain file and "
-                   "as mail body; (b) for every instantiable registered "
+                   "as mail body, plus every (header, position, wire spelling) and (header, absent | twice) of a raw one-part eml / mbox message "
+                   "(thorough: also CRLF, and pairs of headers); (b) for every instantiable registered "
                    "dataclass (registry discovered reflectively) the baseline instance and every instance deviating in <= %d field(s) "
                    "over the per-type domains, every str field also over the decorated strings (single deviations); (c) cli.main on small generated documents, containers and %d fixtures x {--json, "
                    "--json-unit} x {--binary} x {flag position}. distinct_nontrivial = distinct (result classes | failed clauses) outcomes"
@@ -1002,7 +1034,12 @@ def run(ctx):
                       "decor_alphabet": [n for n, _ in I.DECOR], "decor_len_instance": I.DECOR_BOUNDS[decor_level(ctx.tier)],
                       "decor_strings_per_str_field": len(I.decor_sequences(decor_level(ctx.tier))),
                       "decor_deep_classes": ([] if ctx.quick else sorted(n for n, c in reg.items() if I.instantiable(c) and I.has_ctor_code(c))),
-                      "decor_text_cases": _count_by_kind(G.edge_cases(ctx.tier, seed))}}
+                      "decor_text_cases": _count_by_kind(G.edge_cases(ctx.tier, seed)),
+                      "header_names": list(G.HDR_NAMES), "header_positions": sum(len(v) for v in G.HDR_POS.values()),
+                      "header_spellings": list(G.HDR_SPELL) + list(G.HDR_PSEUDO),
+                      "header_pair_spellings": [] if ctx.quick else list(G.HDR_PAIR_SPELL),
+                      "header_line_ends": ["lf"] if ctx.quick else ["lf", "crlf"],
+                      "header_cases": _count_by_kind(G.header_cases(ctx.tier, seed))}}
     return {"coverage": cov, "failures": fails, "harness_errors": herr,
             "assumptions": [
                 "inputs the extractors reject (password-protected / empty fixtures) produce no result and are outside the quantifier",
@@ -1019,6 +1056,8 @@ def run(ctx):
                 "decorated texts as files: the text an extractor result holds is whatever the library's charset detection makes of the bytes "
                 "(short texts with U+200B / NUL are sometimes decoded as a legacy code page); the oracle compares the result with its own "
                 "round trip only, the fate of the decoration is reported as outcome class",
+                "header spellings: a message the reader rejects as a whole (e.g. mbox with a raw 8-bit From, an encoded-word with invalid "
+                "base64) produces no result and is outside the quantifier; it is counted under not_results",
                 "thorough, decorated strings of length 3: only for classes with constructor code of their own (from_json re-runs constructors; "
                 "the serialiser itself treats strings by type, not by class, so lengths <= 2 on every class cover it)",
                 "NaN / infinite floats are not in the float domain (JSON has no spelling for them; the statement names the standard encoder only)",
